@@ -85,7 +85,11 @@ def one_run(drv, g, desc, res, tag, tol, max_iter, ffp):
             rel = (prev - cur) / (prev + EPS)
             # with tol > 0: a relative decrease within 1e-7 of tol, or a plateau (chi2 equal up to rounding, where
             # `chi2 <= chi2_prev` is decided by the last bits); with tol == 0 the test `rel < 0` never fires on either side
-            if tol > 0 and (abs(rel - tol) <= 1e-7 * max(abs(rel), tol) or abs(cur - prev) <= 1e-9 * abs(prev)):
+            # ... or both values at the rounding floor of the chi2 arithmetic ((eps * scale)^2, e.g. 1e-29 after a noise-free graph
+            # has converged): their order is decided by rounding, in numpy and in the model alike (seen in the thorough tier on the
+            # unchanged tree: impl 1.21e-29 -> 1.52e-29 "increase", model a decrease)
+            floor = 1e-24 * (1.0 + max((abs(c) for c in chis if math.isfinite(c)), default=0.0))
+            if tol > 0 and (abs(rel - tol) <= 1e-7 * max(abs(rel), tol) or abs(cur - prev) <= 1e-9 * abs(prev) or max(abs(prev), abs(cur)) <= floor):
                 res["borderline"] += 1
                 return
     if m["conv"] != bool(r.converged) or m["n"] != r.num_iterations or len(m["iters"]) != len(r.iteration_results):
